@@ -21,8 +21,10 @@ def tok(kind, i):
     return f"{kind}{i:04d}".ljust(32, "0")
 
 
-def quat(yaw):
-    return [math.cos(yaw / 2), 0.0, 0.0, math.sin(yaw / 2)]
+def quat(yaw, pitch=0.0, roll=0.0):
+    """w, x, y, z of Rz(yaw) * Ry(pitch) * Rx(roll)"""
+    cy, sy, cp, sp, cr, sr = math.cos(yaw / 2), math.sin(yaw / 2), math.cos(pitch / 2), math.sin(pitch / 2), math.cos(roll / 2), math.sin(roll / 2)
+    return [cr * cp * cy + sr * sp * sy, sr * cp * cy - cr * sp * sy, cr * sp * cy + sr * cp * sy, cr * cp * sy - sr * sp * cy]
 
 
 def tiny_png(path):
@@ -57,7 +59,7 @@ def write_dataset(root, case):
         T["sample"].append(dict(token=tok("smp", i), timestamp=s["t"], prev=tok("smp", i - 1) if i else "", next=tok("smp", i + 1) if i + 1 < n else "", scene_token=tok("scn", 0)))
         for k, (chan, cal, ext) in enumerate(((case["lidar_channel"], 0, "pcd.bin"), ("CAM_FRONT", 1, "jpg"))):
             sd = 2 * i + k
-            T["ego_pose"].append(dict(token=tok("ego", sd), timestamp=s["t"], rotation=quat(s["ego"][2]), translation=[s["ego"][0], s["ego"][1], 0.0]))
+            T["ego_pose"].append(dict(token=tok("ego", sd), timestamp=s["t"], rotation=quat(*s["ego"][2:]), translation=[s["ego"][0], s["ego"][1], 0.0]))
             T["sample_data"].append(dict(token=tok("sdt", sd), sample_token=tok("smp", i), ego_pose_token=tok("ego", sd), calibrated_sensor_token=tok("cal", cal), timestamp=s["t"],
                                          fileformat=ext.split(".")[0], is_key_frame=True, height=0 if k == 0 else 600, width=0 if k == 0 else 1000,
                                          filename=f"data/{chan}/{i}.{ext}", prev=tok("sdt", sd - 2) if i else "", next=tok("sdt", sd + 2) if i + 1 < n else "",
@@ -84,9 +86,12 @@ def write_dataset(root, case):
 
 
 def to_ego(a, ego):
-    dx, dy = a["x"] - ego[0], a["y"] - ego[1]
-    c, s = math.cos(-ego[2]), math.sin(-ego[2])
-    return c * dx - s * dy, s * dx + c * dy, a["z"], a["yaw"] - ego[2]
+    """annotated global pose moved by the inverse ego pose (rotation: yaw, pitch, roll) -> (position, Quaternion)"""
+    import numpy as np
+    from pyquaternion import Quaternion
+    qe = Quaternion(quat(*ego[2:]))
+    p = qe.inverse.rotate(np.array([a["x"] - ego[0], a["y"] - ego[1], a["z"]]))
+    return p, qe.inverse * Quaternion(quat(a["yaw"]))
 
 
 def wrap(x):
@@ -136,11 +141,15 @@ def check(case):
                                 return f"{ctx} frame {i}: instance {a['inst']} visibility {o.visibility}, annotation level {a['vis']}"
                             if o.frame_id != FrameID.from_value(frame) or o.unix_time != s["t"]:
                                 return f"{ctx} frame {i}: object frame {o.frame_id} / time {o.unix_time}"
-                            x, y, z, yaw = (a["x"], a["y"], a["z"], a["yaw"]) if frame == "map" else to_ego(a, s["ego"])
-                            got_yaw = o.state.orientation.yaw_pitch_roll[0]
-                            if max(abs(o.state.position[0] - x), abs(o.state.position[1] - y), abs(o.state.position[2] - z)) > 1e-6 or abs(wrap(got_yaw - yaw)) > 1e-6:
-                                return (f"{ctx} frame {i}: instance {a['inst']} pose {tuple(round(v, 4) for v in o.state.position)} yaw {got_yaw:.4f}, "
-                                        f"expected ({x:.4f}, {y:.4f}, {z:.4f}) yaw {wrap(yaw):.4f}")
+                            from pyquaternion import Quaternion as _Q
+                            if frame == "map":
+                                want_p, want_q = (a["x"], a["y"], a["z"]), _Q(quat(a["yaw"]))
+                            else:
+                                want_p, want_q = to_ego(a, s["ego"])
+                            gq = o.state.orientation
+                            if max(abs(o.state.position[k] - want_p[k]) for k in range(3)) > 1e-6 or min(_Q.absolute_distance(gq, want_q), _Q.absolute_distance(gq, -want_q)) > 1e-6:
+                                return (f"{ctx} frame {i}: instance {a['inst']} pose {tuple(round(v, 4) for v in o.state.position)} / {gq}, "
+                                        f"expected {tuple(round(float(v), 4) for v in want_p)} / {want_q}")
                             # the stored ego->map transform maps the ego pose onto the global pose
                             if frame == "base_link":
                                 p, q = fr.transforms.transform((FrameID.BASE_LINK, FrameID.MAP), o.state.position, o.state.orientation)
@@ -168,7 +177,8 @@ def gen(rng):
     poses = {j: [rng.uniform(-30, 30), rng.uniform(-30, 30), rng.uniform(-1, 1), rng.uniform(-3, 3)] for j in range(n_inst)}
     for i in range(rng.randint(1, 4)):
         t += rng.choice([100_000, 500_000, 2_000_000])
-        ego = (round(rng.uniform(-40, 40), 3), round(rng.uniform(-40, 40), 3), round(rng.uniform(-3.1, 3.1), 3))
+        ego = (round(rng.uniform(-40, 40), 3), round(rng.uniform(-40, 40), 3), round(rng.uniform(-3.1, 3.1), 3),
+               rng.choice([0.0, round(rng.uniform(-0.2, 0.2), 3)]), rng.choice([0.0, round(rng.uniform(-0.1, 0.1), 3)]))
         anns = []
         for j in range(n_inst):
             if rng.random() < 0.75:
